@@ -298,11 +298,25 @@ impl Show for (usize, usize, usize) {
         format!("({},{},{})", self.0, self.1, self.2)
     }
 }
-impl Show for (usize, usize, usize, usize) {
-    fn show(&self) -> String {
-        format!("({},{},{},{})", self.0, self.1, self.2, self.3)
-    }
+macro_rules! show_tuple {
+    ($($t:ty : $i:tt),+) => {
+        impl Show for ($($t,)+) {
+            fn show(&self) -> String {
+                let v: Vec<String> = vec![$(format!("{}", self.$i)),+];
+                format!("({})", v.join(","))
+            }
+        }
+    };
 }
+show_tuple!(usize:0, usize:1, usize:2, usize:3);
+show_tuple!(usize:0, usize:1, usize:2, usize:3, usize:4);
+show_tuple!(usize:0, usize:1, usize:2, usize:3, usize:4, usize:5);
+show_tuple!(usize:0, usize:1, usize:2, usize:3, usize:4, usize:5, usize:6);
+show_tuple!(usize:0, usize:1, usize:2, usize:3, usize:4, usize:5, usize:6, usize:7);
+show_tuple!(usize:0, usize:1, usize:2, usize:3, usize:4, usize:5, usize:6, usize:7, usize:8);
+show_tuple!(usize:0, usize:1, usize:2, usize:3, usize:4, usize:5, usize:6, usize:7, usize:8, usize:9);
+show_tuple!(usize:0, usize:1, usize:2, usize:3, usize:4, usize:5, usize:6, usize:7, usize:8, usize:9, usize:10);
+show_tuple!(usize:0, usize:1, usize:2, usize:3, usize:4, usize:5, usize:6, usize:7, usize:8, usize:9, usize:10, usize:11);
 
 /// the recording sink `s` of subscription `sub`
 fn mk_sink<O: Show + 'static>(sub: usize, s: usize) -> Arc<Sink<O>> {
@@ -607,7 +621,15 @@ fn build(kv: &Kv) -> Rc<dyn Fn(usize, usize, u64)> {
                 1 => sub_to(Arc::new(combine((s(0),)))),
                 2 => sub_to(Arc::new(combine((s(0), s(1))))),
                 3 => sub_to(Arc::new(combine((s(0), s(1), s(2))))),
-                _ => sub_to(Arc::new(combine((s(0), s(1), s(2), s(3))))),
+                4 => sub_to(Arc::new(combine((s(0), s(1), s(2), s(3))))),
+                5 => sub_to(Arc::new(combine((s(0), s(1), s(2), s(3), s(4))))),
+                6 => sub_to(Arc::new(combine((s(0), s(1), s(2), s(3), s(4), s(5))))),
+                7 => sub_to(Arc::new(combine((s(0), s(1), s(2), s(3), s(4), s(5), s(6))))),
+                8 => sub_to(Arc::new(combine((s(0), s(1), s(2), s(3), s(4), s(5), s(6), s(7))))),
+                9 => sub_to(Arc::new(combine((s(0), s(1), s(2), s(3), s(4), s(5), s(6), s(7), s(8))))),
+                10 => sub_to(Arc::new(combine((s(0), s(1), s(2), s(3), s(4), s(5), s(6), s(7), s(8), s(9))))),
+                11 => sub_to(Arc::new(combine((s(0), s(1), s(2), s(3), s(4), s(5), s(6), s(7), s(8), s(9), s(10))))),
+                _ => sub_to(Arc::new(combine((s(0), s(1), s(2), s(3), s(4), s(5), s(6), s(7), s(8), s(9), s(10), s(11))))),
             }
         }
         "flatten" => {
